@@ -4350,6 +4350,11 @@ class TLSConnection(TLSRecordLayer):
                 self._pre_client_hello_handshake_hash = \
                     self._handshake_hash.copy()
 
+                # RFC 8449: the record_size_limit we advertised covers
+                # protected records only; the second ClientHello is sent
+                # in the clear and may well be bigger
+                recv_limit = self._recv_record_limit
+                self._recv_record_limit = 2**14
                 for result in self._getMsg(ContentType.handshake,
                                            HandshakeType.client_hello):
                     if result in (0, 1):
@@ -4357,6 +4362,7 @@ class TLSConnection(TLSRecordLayer):
                     else:
                         break
                 clientHello = result
+                self._recv_record_limit = recv_limit
 
                 # verify that the new key share is present
                 ext = clientHello.getExtension(ExtensionType.key_share)
